@@ -2,7 +2,7 @@ SPECIFICATION Spec
 CONSTANTS
   MaxOps = 5
   MaxDepth = 3
-  MCKinds = {"vec", "arrayvec", "slice", "sliceref"}
+  MCKinds = {"vec", "arrayvec", "slice", "sliceref", "raw"}
   Caps = {0, 1, 2, 4}
   Len0s = {0, 1, 2}
   Sizes = {0, 1, 3, 5}
@@ -11,12 +11,31 @@ CONSTANTS
   ExtUnder = {1, 3, 5}
   ExtOver = {0, 1, 3}
   AdvSizes = {0, 1, 2}
+  ScrSizes = {1, 2}
   Avails = {0, 2, 5}
   CapAts = {0, 1, 3, 5}
   CapAts2 = {1, 3}
+  RelCaps = {1}
   OverKinds = {"plus1", "total", "total1"}
   TouchCaps = {0, 1, 5}
+  TouchOn = TRUE
+  CloseInitOn = TRUE
+  UnwindOn = TRUE
+  ViaSet = {"manual", "packer"}
+  ViaCaps = {1}
+  Readers = {"mutref", "boxed", "bufreader", "empty", "repeat", "take", "short", "chain", "err"}
+  RdAvails = {0, 2}
+  RdCaps = {1}
+  UserWho = {"huffd", "strbytes"}
+  UserSizes = {0, 2, 5}
+  UserCaps = {1}
+  PkKinds = {"raw", "rest", "string", "int", "data"}
+  PkSizes = {0, 2}
+  PkInts = {0, 63, 64, 8192}
+  PkNegInts = {1, 65}
+  GrowBy = {1, 3}
+  RawDirtyNs = {1, 2}
 VIEW View
 INVARIANTS InitLeSpare Nested Contents OwnerBytes Untouched
-PROPERTIES Frame WriteBack Refusal SliceReported RefusedCounts
+PROPERTIES Frame FrameTop WriteBack Refusal SliceReported RefusedCounts UserCounts
 CHECK_DEADLOCK FALSE
